@@ -307,7 +307,7 @@ func (api *API) mapEncodeStructFields(
 					ownKeys[keyType] = struct{}{}
 				}
 				_ = api.collectStructKeys(memberType, ownKeys)
-			} else if memberType.Kind() == reflect.Interface {
+			} else {
 				ownKeys[keyType] = struct{}{}
 			}
 
@@ -378,8 +378,9 @@ func (api *API) collectStructKeys(structType reflect.Type, usedKeys map[string]s
 			if err == nil {
 				err = api.collectStructKeys(memberType, usedKeys, visitedTypes...)
 			}
-		case sField.settings.inlined && memberType.Kind() == reflect.Interface:
-			// the other keys of an inlined interface depend on the value, its type code is always there: a struct with a
+		case sField.settings.inlined && memberType.Kind() != reflect.Map && memberType.Kind() != reflect.Struct:
+			// the other keys of an inlined interface (or of a typed byte array, ...) depend on the value or on the type
+			// settings of the call, the type code is always there: a struct with a
 			// second owner of the type key (its own type code, another inlined member with a type code) can't be told
 			// apart from the map form of the struct with that member left out
 			err = occupy(keyType)
